@@ -172,6 +172,16 @@ namespace
                 mc::violation("C09.old.buffer_writer." + cls, "%s %s: binary_buffer_writer wrote %ld bytes %s, want %zu bytes %s", tn.c_str(), what,
                               (long)(wr.ptr - e.p), mc::hex(e.p, e.n < 40 ? e.n : 40).c_str(), ref.size(), hexs(ref, 40).c_str());
         }
+        if (const char *ro = ReadOnly::hold(enc.data(), enc.size()))
+        {
+            // the same bytes held in read-only memory that ends at an inaccessible page
+            T r{};
+            mc::crash_context("C09.old.decode_readonly_input.%s", cls.c_str());
+            long used = decode(ro, enc.size(), r);
+            if (!eq(r, v) || used != (long)enc.size())
+                mc::violation("C09.old.roundtrip_readonly_input." + cls, "%s %s: decoding from read-only memory gives %s, consumed %ld of %zu", tn.c_str(), what,
+                              eq(r, v) ? "v" : "another value", used, enc.size());
+        }
         {
             // decode in place into an object that already holds a DIFFERENT value: the result is v, nothing of
             // the old content survives (strings shrink, containers are replaced, not appended to)
@@ -631,6 +641,145 @@ namespace
     }
 }
 
+namespace
+{
+    // ---- nested serialize() of the same type from inside reflect() ----------------------------------
+    struct Envelope
+    {
+        u8 id = 0;
+        std::vector<Envelope> kids;
+        u16 tail = 0;
+        template <class R> void reflect(R &r)
+        {
+            r &id;
+            if constexpr (std::is_base_of<igris::archive::binary_serializer_basic, R>::value)
+            {
+                u16 n = (u16)kids.size();
+                r &n;
+                for (const Envelope &k : kids)
+                {
+                    std::string blob = igris::serialize(k); // nested top-level call, same T, outer call still running
+                    r &blob;
+                }
+            }
+            else
+            {
+                u16 n = 0;
+                r &n;
+                kids.clear();
+                for (int i = 0; i < n; i++)
+                {
+                    std::string blob;
+                    r &blob;
+                    kids.push_back(igris::deserialize<Envelope>(blob)); // nested top-level decode
+                }
+            }
+            r &tail;
+        }
+    };
+    static void nested_case()
+    {
+        const int H = 4;
+        long n = tree_count(H);
+        long i = mc::choose((int)n);
+        int counter = 0;
+        Envelope v = make_tree<Envelope>(i, H, counter);
+        counter = 100;
+        Envelope w = make_tree<Envelope>((i + 1) % n, H, counter);
+        std::string ref, refw;
+        ref_tree(ref, v);
+        ref_tree(refw, w);
+        mc::describe("old[" C09_COMPILER "] envelope tree #%ld/%ld (height %d, %d nodes, %zu bytes): sub-records encoded by nested igris::serialize() inside reflect()", i, n,
+                     tree_height(v), counter - 100, ref.size());
+        if (!v.kids.empty())
+            mc::nontrivial();
+        mc::crash_context("C09.old.nested_serialize");
+        std::string enc = igris::serialize(v), encw = igris::serialize(w), again = igris::serialize(v);
+        mc::outcome(mc::fmt("nested/%zu", enc.size()));
+        if (enc != ref || encw != refw || again != ref)
+            mc::violation("C09.old.layout.nested_serialize", "tree #%ld: serialize gives %zu bytes %s (second call %zu bytes), stated layout %zu bytes %s", i, enc.size(),
+                          hexs(enc, 32).c_str(), again.size(), ref.size(), hexs(ref, 32).c_str());
+        std::string cat = ref + refw; // decode what the layout says, so that the decoder is judged on its own
+        Exact e(cat.data(), cat.size());
+        igris::archive::binary_buffer_reader reader(e.p, e.n);
+        Envelope a, b = v; // b: in place over another tree
+        mc::crash_context("C09.old.nested_deserialize");
+        igris::deserialize(reader, a);
+        long mid = (const char *)reader.pointer() - e.p;
+        igris::deserialize(reader, b);
+        long used = (const char *)reader.pointer() - e.p;
+        if (!eq_tree(a, v) || !eq_tree(b, w) || mid != (long)ref.size() || used != (long)cat.size())
+            mc::violation("C09.old.roundtrip.nested_serialize", "tree #%ld then #%ld: first %s, second %s, consumed %ld then %ld of %zu", i, (i + 1) % n,
+                          eq_tree(a, v) ? "ok" : "WRONG", eq_tree(b, w) ? "ok" : "WRONG", mid, used, cat.size());
+        Envelope r1 = igris::deserialize<Envelope>(enc);
+        if (!eq_tree(r1, v))
+            mc::violation("C09.old.roundtrip.nested_serialize", "tree #%ld: deserialize<T>(serialize(v)) != v", i);
+        mc::crash_context("C09.old.harness");
+    }
+
+    // ---- two archives of the same class alive at once, used alternately (+ top-level calls in between) ----
+    static void interleaved_case()
+    {
+        static const size_t L[4] = {0, 1, 16, 300};
+        int c = mc::choose(256);
+        str A[2] = {buf_content(L[c & 3], 0), buf_content(L[c >> 2 & 3], 2)}, B[2] = {buf_content(L[c >> 4 & 3], 2), buf_content(L[c >> 6 & 3], 0)};
+        std::vector<u16> X = {1, 2, 3}, Y = {0xFFFF};
+        mc::describe("old[" C09_COMPILER "] two writers / two readers used alternately, strings of %zu,%zu and %zu,%zu bytes", A[0].size(), A[1].size(), B[0].size(),
+                     B[1].size());
+        mc::nontrivial();
+        std::string ra, rb;
+        ref_enc(ra, A[0]);
+        ref_enc(ra, X);
+        ref_enc(ra, A[1]);
+        ref_enc(rb, B[0]);
+        ref_enc(rb, Y);
+        ref_enc(rb, B[1]);
+        mc::crash_context("C09.old.interleaved");
+        std::string s1, s2;
+        bool ok = true;
+        {
+            igris::archive::binary_string_writer w1(s1), w2(s2);
+            Exact o1(ra.size(), 0xEE), o2(rb.size(), 0xEE);
+            igris::archive::binary_buffer_writer bw1(o1.p, o1.n), bw2(o2.p, o2.n);
+            igris::serialize(w1, A[0]);
+            igris::serialize(bw2, B[0]);
+            igris::serialize(w2, B[0]);
+            ok = ok && igris::serialize(A[1]).size() == A[1].size() + 2; // a top-level call while four writers are open
+            igris::serialize(bw1, A[0]);
+            igris::serialize(w2, Y);
+            igris::serialize(w1, X);
+            igris::serialize(bw1, X);
+            igris::serialize(bw2, Y);
+            igris::serialize(w1, A[1]);
+            igris::serialize(bw2, B[1]);
+            igris::serialize(w2, B[1]);
+            igris::serialize(bw1, A[1]);
+            ok = ok && s1 == ra && s2 == rb && bw1.ptr == o1.p + o1.n && bw2.ptr == o2.p + o2.n && memcmp(o1.p, ra.data(), o1.n) == 0 &&
+                 memcmp(o2.p, rb.data(), o2.n) == 0;
+        }
+        if (!ok)
+            mc::violation("C09.old.interleaved.writers", "two string writers and two buffer writers used alternately: an output differs from its own values' encoding");
+        {
+            Exact e1(ra.data(), ra.size()), e2(rb.data(), rb.size());
+            igris::archive::binary_buffer_reader r1(e1.p, e1.n), r2(e2.p, e2.n);
+            str a0, a1, b0, b1;
+            std::vector<u16> x, y;
+            igris::deserialize(r1, a0);
+            igris::deserialize(r2, b0);
+            igris::deserialize(r2, y);
+            bool top = igris::deserialize<str>(igris::serialize(B[1])) == B[1]; // top-level round trip while two readers are open
+            igris::deserialize(r1, x);
+            igris::deserialize(r1, a1);
+            igris::deserialize(r2, b1);
+            if (!top || a0 != A[0] || a1 != A[1] || b0 != B[0] || b1 != B[1] || !eq(x, X) || !eq(y, Y) || (const char *)r1.pointer() != e1.p + e1.n ||
+                (const char *)r2.pointer() != e2.p + e2.n)
+                mc::violation("C09.old.interleaved.readers", "two readers used alternately: a decoded value or a final position is wrong");
+        }
+        mc::outcome(mc::fmt("interleaved/%zu/%zu", ra.size(), rb.size()));
+        mc::crash_context("C09.old.harness");
+    }
+}
+
 #ifdef EXTRAS
 const char *const c09::framework = "old";
 #endif
@@ -700,6 +849,8 @@ MC_INIT
     mc::add_check("old.buffers", buffers_case);
     mc::add_check("old.raw_blocks", raw_blocks_case);
     mc::add_check("old.relocated_archives", relocated_case);
+    mc::add_check("old.nested_serialize", nested_case);
+    mc::add_check("old.interleaved_archives", interleaved_case);
     goldens().push_back({"CountedBlk", [] {
                              CountedBlk c;
                              c.s = "abc";
